@@ -110,6 +110,32 @@ def parse_rfc3339_datetime(rfc3339):
         delta = -delta
     return raw_datetime.replace(tzinfo=timezone(delta))
 
+def find_states_members(states, name, path="$"):
+    """
+    Find the states called name in the given "States" object and, by recursive
+    descent, in the "States" objects of the Parallel branches and Map Iterators
+    nested in it. Returns a list of (path, enclosing "States" object) tuples.
+    """
+    found = []
+    if isinstance(states, dict):
+        if name in states:
+            found.append((path + "['" + name + "']", states))
+        for k, state in states.items():
+            if not isinstance(state, dict):
+                continue
+            machines = [("['" + key + "']", state[key])
+                        for key in ("Iterator", "ItemProcessor") if key in state]
+            if isinstance(state.get("Branches"), list):
+                machines += [("['Branches'][" + str(i) + "]", branch)
+                             for i, branch in enumerate(state["Branches"])]
+            for suffix, machine in machines:
+                if isinstance(machine, dict):
+                    found += find_states_members(
+                        machine.get("States"), name,
+                        path + "['" + k + "']" + suffix + "['States']"
+                    )
+    return found
+
 def find_state(current_state_machine, current_state, force_full_lookup=False):
     """
     Look-up the specified JSON state machine to find the state object with the
@@ -122,19 +148,17 @@ def find_state(current_state_machine, current_state, force_full_lookup=False):
         If the state can't be found in the parent state machine search for
         it more deeply using recursive descent, as the specified state might
         actually be in a Parallel branch or Map Iterator state machine.
-        Because JSONPath doesn't have a parent operator and we want to get
-        the parent States object too we get the full JSONPath string for
-        the query then use simple string splits to find the path of that.
+        The state machine is walked directly rather than with a "$..<name>"
+        JSONPath query, as a state name is an arbitrary string: it may contain
+        characters that mean something in JSONPath ("x.y", "*", "q[0]") or be
+        the name of an ASL field ("Next", "Result") that occurs all over the
+        definition without being a state.
         """
-        path = get_full_jsonpath(current_state_machine, "$.." + current_state)
-        if path:
-            states_path = path[0].rpartition("['States']")[0]
-            if states_path:
-                branch = apply_jsonpath(current_state_machine, states_path)
-                current_state_machine = branch["States"]
-                state = current_state_machine.get(current_state)
-        else:
-            path = []
+        matches = find_states_members(current_state_machine, current_state)
+        path = [p for p, states in matches]
+        if path and matches[0][1] is not current_state_machine:
+            current_state_machine = matches[0][1]
+            state = current_state_machine.get(current_state)
     else:
         path = ["$['" + current_state + "']"]
 
